@@ -2,6 +2,7 @@
    Reads harness lines `op args => observed`, recomputes the result with the model and prints
    `op args => model-result`.  For relational steps (marked below) the observed result is fed to
    the model's acceptance function and echoed when accepted, or `REJECT <why>` printed. *)
+module BZ = Z
 open Model
 
 (* ---------- conversions ---------- *)
@@ -16,19 +17,19 @@ let z_of_int i = if i = 0 then Z0 else if i > 0 then Zpos (pos_of_int i) else Zn
 let int_of_z = function Z0 -> 0 | Zpos p -> int_of_pos p | Zneg p -> - (int_of_pos p)
 
 (* arbitrary precision through Zarith *)
-let rec pos_of_big (b : Z.t) : positive =
-  if Z.equal b Z.one then XH
-  else if Z.testbit b 0 then XI (pos_of_big (Z.shift_right b 1)) else XO (pos_of_big (Z.shift_right b 1))
-let n_of_big b = if Z.sign b = 0 then N0 else Npos (pos_of_big b)
-let z_of_big b = if Z.sign b = 0 then Z0 else if Z.sign b > 0 then Zpos (pos_of_big b) else Zneg (pos_of_big (Z.neg b))
+let rec pos_of_big (b : BZ.t) : positive =
+  if BZ.equal b BZ.one then XH
+  else if BZ.testbit b 0 then XI (pos_of_big (BZ.shift_right b 1)) else XO (pos_of_big (BZ.shift_right b 1))
+let n_of_big b = if BZ.sign b = 0 then N0 else Npos (pos_of_big b)
+let z_of_big b = if BZ.sign b = 0 then Z0 else if BZ.sign b > 0 then Zpos (pos_of_big b) else Zneg (pos_of_big (BZ.neg b))
 let rec big_of_pos = function
-  | XH -> Z.one | XO p -> Z.shift_left (big_of_pos p) 1 | XI p -> Z.succ (Z.shift_left (big_of_pos p) 1)
-let big_of_n = function N0 -> Z.zero | Npos p -> big_of_pos p
-let big_of_z = function Z0 -> Z.zero | Zpos p -> big_of_pos p | Zneg p -> Z.neg (big_of_pos p)
-let n_of_dec s = n_of_big (Z.of_string s)
-let z_of_dec s = z_of_big (Z.of_string s)
-let dec_of_n x = Z.to_string (big_of_n x)
-let dec_of_z x = Z.to_string (big_of_z x)
+  | XH -> BZ.one | XO p -> BZ.shift_left (big_of_pos p) 1 | XI p -> BZ.succ (BZ.shift_left (big_of_pos p) 1)
+let big_of_n = function N0 -> BZ.zero | Npos p -> big_of_pos p
+let big_of_z = function Z0 -> BZ.zero | Zpos p -> big_of_pos p | Zneg p -> BZ.neg (big_of_pos p)
+let n_of_dec s = n_of_big (BZ.of_string s)
+let z_of_dec s = z_of_big (BZ.of_string s)
+let dec_of_n x = BZ.to_string (big_of_n x)
+let dec_of_z x = BZ.to_string (big_of_z x)
 
 let byte_tab : byte array = Array.init 256 (fun i -> byte_of_N (n_of_int i))
 let int_of_byte (b : byte) : int = int_of_n (to_N b)
